@@ -410,8 +410,23 @@ impl<'a> Selector<'a> {
         while let Some(pos) = poses.pop_front() {
             let jentry = match pos {
                 Position::Container((offset, length)) => {
-                    data.extend_from_slice(&root[offset..offset + length]);
-                    CONTAINER_TAG | length as u32
+                    let value = &root[offset..offset + length];
+                    match value.get(..8) {
+                        // a scalar document selected as a whole (`$` on a scalar root) is a scalar
+                        // element of the array, not a nested container.
+                        Some(head)
+                            if u32::from_be_bytes([head[0], head[1], head[2], head[3]])
+                                & CONTAINER_HEADER_TYPE_MASK
+                                == SCALAR_CONTAINER_TAG =>
+                        {
+                            data.extend_from_slice(&value[8..]);
+                            u32::from_be_bytes([head[4], head[5], head[6], head[7]])
+                        }
+                        _ => {
+                            data.extend_from_slice(value);
+                            CONTAINER_TAG | length as u32
+                        }
+                    }
                 }
                 Position::Scalar((ty, offset, length)) => {
                     if length > 0 {
